@@ -475,6 +475,12 @@ func (c *Case) Exec(t *eng.T) {
 	out := px.Render(nil, src, ctx)
 	t.Outcome(out.String())
 	key := "expr:" + c.Ops + ":" + c.Sink
+	if c.Want == "OPEN" {
+		if out.Panic != "" {
+			t.Fail(key+":panic", "%s (tree %s) panics: %s", src, c.Tree, out.PanicMsg)
+		}
+		return
+	}
 	if out.Compile && out.Err != "" || out.Panic != "" {
 		t.Fail(key+":rejected", "%s (tree %s) does not compile/run: %s", src, c.Tree, out)
 		return
@@ -572,7 +578,12 @@ func emit(r *eng.Runner, e *Expr, styles []style) {
 	st := &evalState{}
 	v, status := eval(e, st)
 	if status == stSkip {
+		// the value of this tree is left open (mixed operand kinds etc.); whatever it evaluates to, it must be a
+		// value or an execution error - never a panic: one spelling is still executed
 		r.AddExtra("trees_outside_fragment", 1)
+		if src, sk := e.print(styles[0], true); !sk {
+			r.Do(&Case{Src: src, Sink: "print", Tree: e.full(), Want: "OPEN", Ops: e.ops()})
+		}
 		return
 	}
 	for _, sty := range styles {
